@@ -2,6 +2,8 @@
    Index maps in exact integer arithmetic (the float side is tied by the correspondence,
    not proved). [kidx n i j] is the closed form i*n - i(i+3)/2 + j - 1. Statements only. *)
 From PV Require Import Model.Condensed Proofs.CondensedP Proofs.PropagateP.
+From Coq Require Reals.
+From PV Require Proofs.NormP.
 
 Theorem C20_condensed_symmetric : forall n i j, to_condensed n i j = to_condensed n j i.
 Proof. exact condensed_sym. Qed.
@@ -84,6 +86,19 @@ Example C20_nonvacuous :
   propagate [(0, 2)] [(0, 1); (1, 2)] = Some None.
 Proof. vm_compute. repeat split. Qed.
 
+(* ---- l2_normalize over the reals (one row): unit norm, entries = original / norm, zero rows unchanged.  The float
+   computation is compared with this by the driver within 4 ulp.  Uses the standard library's real-number axioms. ---- *)
+Module RealRows.
+Import Reals List. Local Open Scope R_scope.
+Theorem C20_l2_normalize_unit_norm : forall l : list R, NormP.sumsq l <> 0 -> NormP.sumsq (NormP.l2_row l) = 1.
+Proof. exact NormP.l2_row_unit. Qed.
+Theorem C20_l2_normalize_entries : forall (l : list R) (i : nat), NormP.sumsq l <> 0 ->
+  nth i (NormP.l2_row l) 0 = nth i l 0 / sqrt (NormP.sumsq l).
+Proof. exact NormP.l2_row_entries. Qed.
+Theorem C20_l2_normalize_zero_rows_unchanged : forall l : list R, NormP.sumsq l = 0 -> NormP.l2_row l = l.
+Proof. exact NormP.l2_row_zero. Qed.
+End RealRows.
+
 Print Assumptions C20_condensed_symmetric.
 Print Assumptions C20_condensed_rejects_diagonal.
 Print Assumptions C20_condensed_closed_form.
@@ -104,3 +119,6 @@ Print Assumptions C20_propagate_extends.
 Print Assumptions C20_propagate_returns_exactly_the_implied_pairs.
 Print Assumptions C20_propagate_raises_exactly_on_conflict.
 Print Assumptions C20_propagate_terminates_within_fuel.
+Print Assumptions RealRows.C20_l2_normalize_unit_norm.
+Print Assumptions RealRows.C20_l2_normalize_entries.
+Print Assumptions RealRows.C20_l2_normalize_zero_rows_unchanged.
